@@ -361,6 +361,29 @@ def untracked_loop(mode, length):
         del w, g, refs
         gc.collect()
         return res
+    if mode.endswith("_views"):
+        # layout operations (results that may share memory with their operand) in every step: an untracked result must not keep its operand -- or anything else of the step -- alive
+        import synapgrad.functional as F
+        w = F.reshape(sg.tensor([1.0, 2.0, 3.0, 4.0, 5.0, 6.0], requires_grad=track), (2, 3)) if not track else sg.tensor([[1.0, 2.0, 3.0], [4.0, 5.0, 6.0]], requires_grad=True)
+        g = sg.tensor([[0.5, -0.5, 0.25], [0.1, 0.2, -0.3]], requires_grad=track)
+        w0 = w.data.copy()
+        with (sg.no_grad() if track else nullcontext()):
+            nar = 0
+            for t in range(length):
+                refs.append(weakref.ref(w))
+                if t % 100 == 0:            # mostly pure layout steps: consecutive views of views
+                    w = w - 0.1 * g
+                    nar += 1
+                w = F.movedim(F.movedim(w, 0, 1), 1, 0)
+                w = F.transpose(F.transpose(w, 0, 1), 1, 0)
+                w = F.reshape(F.flatten(w), (2, 3))
+        gc.collect()
+        alive = sum(1 for r in refs if r() is not None)
+        res = {"mode": mode, "loop": length, "operands_alive": alive, "live_tensors_added": live_tensors() - base, "result_requires_grad": bool(w.requires_grad),
+               "result_has_grad_fn": w._grad_fn is not None, "value_ok": bool(np.allclose(w.data, w0 - 0.1 * nar * g.data, rtol=1e-2))}
+        del w, g, refs
+        gc.collect()
+        return res
     if mode == "no_grad_reused":
         # a stored no_grad object (built while tracking was on) re-used inside an open no_grad block: everything up to the end of the
         # OUTER block is untracked
